@@ -84,9 +84,11 @@ def conditions(tier):
         for c in more[::3]:
             cs.append(Cond(c.module, c.function, dict(c.params, stop=True), T=c.T, label=c.label.replace("[", "[stop,", 1)))
     n = 3 if q else 4
-    for head in ("@", "@a"):
+    for head in ("@", "@a", "@a @"):
         for term in ("\n", "\r\n"):
             cs.append(_l.line1("TagLine", head, term=term, maxlen=n, maxind=1, T=900, reach=["raises", "match"]))
+    # errors of a document do not depend on what the same Parser parsed before (incl. parses aborted with look-ahead tokens queued)
+    cs += _p.reuse_conditions(k=1, stride=8 if q else 2)
     cs.append(Cond("harness.kw", "language_header", {"names": ["zz", "en", "xx-yy"], "slots": [0, 4], "term": "\n"}, T=600, reach=["raises"]))
     for f in ("unexpected_token", "unexpected_eof", "plain_errors", "parse_error_envelopes"):
         cs.append(Cond("harness.err", f, T=300))
